@@ -12,6 +12,7 @@ names=("$@"); [ ${#names[@]} -eq 0 ] && names=($(ls seeded | grep -v README))
 miss=0
 for name in "${names[@]}"; do
   prop=$(python3 -c "import json;print(json.load(open('$VERIF/seeded/$name/meta.json'))['property'])")
+  if python3 -c "import json,sys;sys.exit(0 if json.load(open('$VERIF/seeded/$name/meta.json')).get('superseded') else 1)"; then echo "$name $prop SUPERSEDED (skipped)"; continue; fi
   git -C "$W/repo" apply "$VERIF/seeded/$name/patch.diff" || { echo "$name APPLY-FAIL"; miss=1; continue; }
   t0=$(date +%s)
   out=$(SOLVOR_REPO="$W/repo" PYTHONPATH="$W/repo" VERIF_OUT="$W/out" ./check "$prop" --tier "${TIER:-quick}" 2>&1); rc=$?
